@@ -119,6 +119,10 @@ def conds_c13(tier):
             for dry in ("0", "1"):
                 cs.append(xhrun.Cond(MOD, "c13_run_reg", _shape_env(s, XH_OUT=o, XH_DRY=dry, XH_CUTMODE="none"),
                                      timeout=240, label=f"c13_run_{s.name}_out-{o}_dry{dry}"))
+    for s in (cat if tier == "thorough" else [by["chain_sss"], by["fork_unstored_mid"]]):
+        for dry in ("0", "1"):
+            cs.append(xhrun.Cond(MOD, "c13_run_reg", _shape_env(s, XH_OUT="shape", XH_DRY=dry, XH_CUTMODE="none", XH_EXTRA=1),
+                                 timeout=240, label=f"c13_run_{s.name}_foreign_registry_entry_dry{dry}"))
     # B. failure in the stale check at a symbolic operation index
     for s in cat:
         for dry in ("0", "1"):
@@ -178,13 +182,20 @@ def conds_c14(tier):
             if s.name in rich:
                 variants += [("struct", "1"), ("none", "1")]
         if s.name == "chain_sss":
-            variants += [("shape", "2"), ("const", "0")]
+            variants += [("shape", "2"), ("const", "0"), ("inner0", "0"), ("inner1", "0")]
+        elif tier == "thorough" and s.n >= 2:
+            variants += [("inner0", "0")]
         if s.name in ("fork_unstored_mid", "out_unstored"):
             variants += [("const", "0")] + ([("struct", "2")] if tier == "thorough" else [])
         for o, tp in variants:
             for sp in _splits(s):
                 cs.append(xhrun.Cond(MOD, "c14_dry", _senv(s, sp, XH_OUT=o, XH_TP=tp), timeout=300,
                                      label=f"c14_dry_{s.name}_out-{o}_tp{tp}{_sfx(sp)}"))
+        if tier == "thorough" or s.name in ("join_s_s_into_s", "fork_unstored_mid"):
+            # the dry run's stale check and the real run's scheduled in different orders (independent branches examined the other way round)
+            for sp in _splits(s):
+                cs.append(xhrun.Cond(MOD, "c14_dry", _senv(s, sp, XH_OUT="shape", XH_TP="0", XH_SWAP=1), timeout=300,
+                                     label=f"c14_dry_{s.name}_out-shape_tp0_swapped_order{_sfx(sp)}"))
         cs.append(xhrun.Cond(MOD, "c14_noreg", _shape_env(s), timeout=240, label=f"c14_noreg_{s.name}"))
     return cs
 
